@@ -37,9 +37,12 @@ CLAIMED = {
             "knotRefinement and knotRefinementOf (explicit knot_list / add_knot_list) preserve every curve point on the whole domain (hypotheses: well-formed curve, clamped end, 0 <= tol, knots pairwise equal or more than tol apart); the refined knot vector is sorted and "
             "equals the old one plus X as a multiset, both sizes grow by |X|, every interior knot of the result has multiplicity exactly the degree, the distinct domain knots are the density-fold bisection of the old ones (closed form l_i + (l_{i+1}-l_i) r / 2^d); "
             "refine_knotvector leaves density-0 directions untouched (any dimension); refineDir in u and v and refine_knotvector on any subset of a surface's directions preserve every surface point and the domain. "
-            "The model of helpers.knot_refinement is specification-level (the list X the code computes, inserted one knot at a time with the A5.1 model proved shape preserving in C04); that the code's A5.4 returns exactly these knots and control points "
-            "is checked by exact correspondence through operations.refine_knotvector on curves, surfaces and volumes (all direction subsets, densities 1..2) and at helper level with explicit knot lists.",
-            "Volumes: refineDir in every direction and refine_knotvector on any subset of the three directions preserve every volume point and the domain (refineDir_preserves_volume, refineKnotvector_preserves_volume; clamped end + tolerance separation per refined direction). Not proved: A5.4's loops themselves are not modelled (specification-level model), so 'A5.4 as coded = fold of insertions' rests on the correspondence. F-05a / F-05b (helper-level refinement with explicit knot lists) were reported with replays and fixed."),
+            "The model of helpers.knot_refinement used by the object-level theorems is specification-level (the list X the code computes, inserted one knot at a time with the A5.1 model proved shape preserving in C04). "
+            "The A5.4 LOOPS of helpers.knot_refinement are additionally TRANSCRIBED LITERALLY (refineA54 / knotRefinementA54, driver ops refa54 / refa54h, compared with the real helper in exact arithmetic) and PROVED equal to the specification-level model - "
+            "knot vector (any sorted X in the domain) and control points (every outer pass is one A5.1 insertion; insertion order is irrelevant because each new control point is the original polar value at consecutive new knots) - for curve-level calls, "
+            "knot vector clamped at the start, no value more than p+1 times; the literal model itself is proved shape preserving. Both models are tied to the code by exact correspondence through operations.refine_knotvector on curves, surfaces and volumes "
+            "(all direction subsets, densities 1..3) and at helper level with explicit knot lists.",
+            "Volumes: refineDir in every direction and refine_knotvector on any subset of the three directions preserve every volume point and the domain (refineDir_preserves_volume, refineKnotvector_preserves_volume; clamped end + tolerance separation per refined direction). Not proved: the list-of-points branch of the helper (surface / volume rows: same arithmetic on rows) is tied by correspondence only; for knot lists X that would raise a knot above multiplicity p only the knot-vector theorem holds (guard on X). F-05a / F-05b (helper-level refinement with explicit knot lists) were reported with replays and fixed."),
     'C06': ("7/C06",
             "Lean theorems (all degrees, positions, prior multiplicities, counts, tolerances >= 0): knot removal A5.8 as coded INVERTS knot insertion A5.1 - r insertions then t <= r removals (called with the span k+r and multiplicity s+r that find_span_linear / "
             "find_multiplicity are proved to return on the refined knot vector) yield exactly the control net of r-t insertions, t = r the original net, for curves, both surface directions and all three volume directions; knot vector and net sizes drop by exactly "
